@@ -195,6 +195,9 @@ theorem fast_write_optional_binary_default_differs :
 
 /-! ### non-vacuity of the hypotheses -/
 
+def Res.toFRes {α} : Res α → FRes α
+  | .ok a => .ok a | .err => .err | .panic => .panic 0
+
 def exProg : Prog := { structs := [{ kind := 0, fields := [
   { id := 3, req := .default, ty := .list .i64, dflt := none },
   { id := 1, req := .required, ty := .i32, dflt := none },
@@ -215,6 +218,15 @@ example : fastWrite exProg 5 0 (.strct [.list [.int 7], .int 5, .bytes [97]]) =
 example : blength exProg 5 0 (.strct [.list [.int 7], .int 5, .bytes [97]]) = .ok 32 := by rfl
 example : write exProg 0 (.strct [.list [.int 7], .int 5, .bytes [97]]) =
     .ok [15, 0, 3, 10, 0, 0, 0, 1, 0, 0, 0, 0, 0, 0, 0, 7, 8, 0, 1, 0, 0, 0, 5, 11, 255, 254, 0, 0, 0, 1, 97, 0] := by rfl
+def exSorted : Prog := { structs := [{ kind := 0, fields := [
+  { id := -2, req := .optional, ty := .str, dflt := none },
+  { id := 1, req := .required, ty := .i32, dflt := none },
+  { id := 3, req := .default, ty := .list .i64, dflt := none }] }] }
+example : SortedSchema exSorted := by
+  intro i sd h
+  match i, h with
+  | 0, h => cases h; decide
+example : fastWrite exSorted 5 0 (.strct [.bytes [97], .int 5, .list [.int 7]]) = Res.toFRes (write exSorted 0 (.strct [.bytes [97], .int 5, .list [.int 7]])) := by rfl
 example : SkipBounded (fun _ _ => .err) := fun _ _ => trivial
 example : B256 [8, 0, 1, 0, 0, 0, 5, 0] := by intro b hb; simp at hb; omega
 
